@@ -5,6 +5,7 @@ pub mod h_tree;
 pub mod h_pack;
 pub mod h_melda;
 pub mod h_c08;
+pub mod h_c04;
 pub mod h_c15;
 pub mod h_c10;
 pub mod h_c07;
@@ -18,6 +19,8 @@ pub fn dispatch(name: &str) -> bool {
         "h_tree::tree_rule" => h_tree::tree_rule(),
         "h_pack::pack_roundtrip" => h_pack::pack_roundtrip(),
         "h_melda::smoke" => h_melda::smoke(),
+        "h_c04::update_read" => h_c04::update_read(),
+        "h_c04::array_chain" => h_c04::array_chain(),
         "h_c15::stage_roundtrip" => h_c15::stage_roundtrip(),
         "h_c10::junk_item" => h_c10::junk_item(),
         "h_c10::damaged_item" => h_c10::damaged_item(),
